@@ -1729,6 +1729,7 @@ fn shape_check(cx: &mut Ctx) {
             json!({"repo": dir, "from_resp_rows": sim.rows.len(), "zero_copy_rows": zc.rows.len(), "translator_rows": lua.rows.len(), "families": sim.families.len(), "problems": [sim.problems, zc.problems, lua.problems]}));
         return;
     }
+    const FIELDS: &[&str] = &["arity", "aerr", "ctor", "slots", "opt", "tail", "opts", "unk", "flits"];
     let by_name = |rows: &[shape::Row]| -> BTreeMap<String, shape::Row> { rows.iter().map(|r| (r.get("name").cloned().unwrap_or_default(), r.clone())).collect() };
     let mut unrecognised: BTreeSet<String> = BTreeSet::new();
     let mut compared = 0u64;
@@ -1739,6 +1740,10 @@ fn shape_check(cx: &mut Ctx) {
             (Some(x), Some(y)) => {
                 for (f, vx) in x {
                     let vy = y.get(f).cloned().unwrap_or_default();
+                    if (vx.contains('?') || vy.contains('?')) && FIELDS.contains(&f.as_str()) {
+                        unrecognised.insert(format!("parsers:{}:{}", n, f));
+                        continue;
+                    }
                     compared += 1;
                     if *vx != vy {
                         cx.out.violation(&format!("C16:source:parsers-shape-differs:{}:{}", n, f), "the match arms of from_resp and from_resp_zero_copy for this command translate to different shape descriptors",
@@ -1754,7 +1759,6 @@ fn shape_check(cx: &mut Ctx) {
         cx.out.violation("C16:source:parsers-shape-differs:families", "the sub-command families of from_resp and from_resp_zero_copy differ (names, text of a missing sub-command, answer to an unknown sub-command)", json!({"from_resp": fa, "from_resp_zero_copy": fb}));
     }
     // (ii) source against the model's shape table
-    const FIELDS: &[&str] = &["arity", "aerr", "ctor", "slots", "opt", "tail", "opts", "unk", "flits"];
     for (grammar, src, tag) in [("resp", &sim, "R"), ("lua", &lua, "L")] {
         let s = by_name(&src.rows);
         let m = by_name(&model[tag]);
@@ -1834,6 +1838,16 @@ fn shape_check(cx: &mut Ctx) {
     if sim.default_arm != zc.default_arm || src_default != model_default {
         cx.out.violation("C16:source:shape:default-arm", "what a command name without a match arm answers differs between the sources or from the model (RESP parsers: Command::Unknown(name); translator: the 'Unknown Redis command' error)",
             json!({"from_resp": sim.default_arm, "from_resp_zero_copy": zc.default_arm, "translator": lua.default_arm, "model": readable(&model_default)}));
+    }
+    // a field the translator could not read is not compared — and is never skipped silently: it must be in the
+    // reviewed list below (empty on the pinned tree), otherwise it is reported (the differential run still covers
+    // the command; the report says which arm to look at and the list to extend after review)
+    const REVIEWED_UNRECOGNISED: &[&str] = &[];
+    for u in &unrecognised {
+        if !REVIEWED_UNRECOGNISED.contains(&u.as_str()) {
+            cx.out.violation(&format!("C16:source:shape-not-recognised:{}", u), "pattern not recognised: the match arm of this command is written in a form the shape translator does not read, so this field of its descriptor is no longer compared with the other parser / the model's shape table (review the arm, then extend the translator or the reviewed list)",
+                json!({"field": u, "reviewed_list": REVIEWED_UNRECOGNISED}));
+        }
     }
     cx.out.count_n("shape:fields-compared", compared);
     cx.out.count_n("shape:fields-unrecognised", unrecognised.len() as u64);
